@@ -4,12 +4,22 @@ import json
 import sys
 
 
+def normal_sigint():
+  """A check started from a background job inherits SIGINT=ignored; openhtf
+  remembers the handler it found at import as the one to fall back to.  Give
+  every worker the disposition of a foreground process."""
+  import signal
+  if signal.getsignal(signal.SIGINT) in (signal.SIG_IGN, signal.SIG_DFL, None):
+    signal.signal(signal.SIGINT, signal.default_int_handler)
+
+
 def main():
   prop, tier, seed, shard, nshards, out = sys.argv[1:7]
   replay = sys.argv[7] if len(sys.argv) > 7 else None
   # openhtf parses sys.argv in Test.configure(); give it nothing to chew on.
   sys.argv = ['verif-worker']
   faulthandler.enable()
+  normal_sigint()
   from vf import harness
   only = None
   if replay:
